@@ -5,8 +5,9 @@ import guards
 
 CLAIMS = ("R1 every arrow_ffi::codec helper that reads value(i) of an input array consults that array's validity in the same function, and a helper that returns an array builds it with a validity (from Option values / a null buffer), because the equivalent Arrow kernels yield NULL where an input is NULL; "
           "R2 filter_simd keeps a selected NULL slot as NULL (Arrow's filter does): it must not drop rows on `is_null`; "
-          "R3 binary helpers refuse inputs of different lengths before the element loop.")
-NOT_DECIDED = "encode/decode round-trip equality of arrow_ffi::array (values); numeric agreement of sums."
+          "R3 binary helpers refuse inputs of different lengths before the element loop; "
+          "R4 (encode half) every function of arrow_ffi::array that reads value(i)/values() of an input array - the encoding deciders (is_constant, the RLE/dictionary estimators) and the scalar extractors - consults that array's validity in the same function: the value buffer under a NULL slot is arbitrary, so a decider that reads it alone picks the Constant encoding for a NULL-bearing array and decode() returns an array without the NULLs.")
+NOT_DECIDED = "encode/decode round-trip equality of arrow_ffi::array for the values themselves (R4 decides only the validity clause of the deciders); numeric agreement of sums."
 
 C = "arrow_ffi::codec"
 VALID = ("is_null", "is_valid", "nulls", "null_count", "logical_nulls", "is_nullable")
@@ -143,6 +144,26 @@ def run(F, R):
         if returns_array and not builds_valid:
             what.append("builds its result from plain values (no validity): NULL inputs come out as ordinary values where Arrow's kernel yields NULL")
         R.check(ok, "C37.R1", f"{name}:validity", "; ".join(what), g.loc(), dict(value_reads=len(vals), params_read=sorted(read_params), params_validity=sorted(valid_params), result_type=rt[:60]))
+    # ---- R4: the encode half (arrow_ffi::array)
+    R.rule("C37.R4", "K2", "encoding deciders / scalar extractors that read the value buffer consult validity")
+    readers = 0
+    for g in sorted(F.in_file("src/arrow_ffi/array.rs"), key=lambda x: x.path):
+        if F.bodies[g.path]["kind"] != "fn":
+            continue
+        vals = [c for c in F.fam_calls(g.path) if c.name.rsplit("::", 1)[-1] in ("value", "values") and "Array" in c.self_ty]
+        if not vals:
+            continue
+        readers += 1
+        rp, vp = set(), set()
+        for c in vals:
+            rp |= param_of(g, c.args[0]) if c.fn is g else _captured_params(F, g, c)
+        for c in F.fam_calls(g.path):
+            if c.name.rsplit("::", 1)[-1] in VALID:
+                vp |= param_of(c.fn, c.args[0]) if c.fn is g else _captured_params(F, g, c)
+        miss = sorted(rp - vp)
+        name = F.bodies[g.path]["name"]
+        R.check(not miss, "C37.R4", f"{name}:validity", f"reads value(i)/values() of parameter(s) {miss} without consulting their validity: the buffer under a NULL slot is arbitrary, so the encoding decision (and the array decode() rebuilds from it) ignores NULLs", g.loc(), dict(value_reads=len(vals), params_read=sorted(rp), params_validity=sorted(vp)))
+    R.floor("C37.R4", "functions of arrow_ffi::array reading value buffers", readers, 3)
     # ---- R2
     fs = F.fn(C + "::filter_simd")
     pushes = [c for c in fs.calls() if c.name.endswith("Vec::<T, A>::push")]
